@@ -409,6 +409,7 @@ func (h h1) Gen(prop, tier string, r *simrt.Rng) (any, simrt.Config) {
 		if c.Mode == "constant" {
 			c.Flags["rate"] = fmt.Sprintf("%d/%s", 1+r.Intn(6), simrt.Pick(r, "100ms", "200ms", "500ms", "1s"))
 			c.Flags["distribution"] = simrt.Pick(r, "none", "regular")
+			c.TickNs, c.TickRate = 0, 0
 		}
 	case "C04":
 		if r.Intn(2) == 0 {
@@ -513,6 +514,18 @@ func (h h1) Gen(prop, tier string, r *simrt.Rng) (any, simrt.Config) {
 		if r.Intn(2) == 0 {
 			sc.StallPermille = 0
 		}
+	}
+	if prop == "C01" && r.Intn(3) == 0 {
+		// results recorded while the run shuts down: requests outnumber workers (drops), and whoever is
+		// recording a result or a drop may be held up for a while
+		if c.Mode == "constant" {
+			c.Concurrency = 1 + r.Intn(2)
+			c.Flags["rate"] = fmt.Sprintf("%d/%s", 3+r.Intn(6), simrt.Pick(r, "100ms", "200ms"))
+			c.Flags["distribution"] = "none"
+			c.TickNs, c.TickRate = 0, 0
+		}
+		sc.StallPermille, sc.StallMaxMs, sc.MaxStalls = simrt.Pick(r, 10, 30), simrt.Pick(r, 20, 300, 1500), 1+r.Intn(3)
+		sc.StallSites = "RecordDroppedIteration|progress.Stats.Record|RecordIterationResult|TriggerPool.stop|sendJobsForExecution|ActiveScenario.Run"
 	}
 	return c, sc
 }
